@@ -481,6 +481,111 @@ def rule4(ctx, rep):
         )
 
 
+def rule5(ctx, rep):
+    """what is queued for the cloud gets drained (added after seeded change C04-8: farm._put chose the cloud list under
+    `_agency and ...` - the one-element holder list, always true - while dispatch drains that list only under
+    `_agency[0]`; without a provider a cloud-classified unit sat on a list nobody reads, its target stayed in doing)"""
+    prog = ctx.prog
+    put = prog.nfunc('dawgie.pl.farm._put')
+    disp = prog.nfunc('dawgie.pl.farm.dispatch')
+    rep.analysed(put, disp)
+    with rep.rule(
+        'R-C04-5',
+        'farm._put selects the cloud list only under the very condition under which farm.dispatch drains it',
+        floor=1,
+        breaks='a released unit is parked on a list that is never handed to anybody: its target stays in doing and the queue never empties',
+    ) as r:
+        CLOUD = 'dawgie.pl.farm._cloud'
+
+        def conjuncts(e, depth=0):
+            if isinstance(e, ast.Name) and depth < 3:
+                # a flag computed just before: follow its single definition
+                for fn in (put, disp):
+                    defs = [d.value for d in fn.own_nodes() if isinstance(d, ast.Assign) and any(isinstance(t, ast.Name) and t.id == e.id for t in d.targets)]
+                    if len(defs) == 1:
+                        return conjuncts(defs[0], depth + 1)
+            if isinstance(e, ast.BoolOp) and isinstance(e.op, ast.And):
+                out = []
+                for v in e.values:
+                    out += conjuncts(v)
+                return out
+            return [e]
+
+        # drain condition: the tests of the if statements of dispatch whose body hands _cloud entries on / clears it
+        drains = []
+        for n in disp.own_nodes():
+            if isinstance(n, ast.If) and any(isinstance(x, (ast.Name, ast.Attribute)) and prog.resolve_in(x, disp) == CLOUD for b in n.body for x in ast.walk(b)):
+                drains.append(n.test)
+        # selection condition in _put
+        sel = []
+        for n in put.own_nodes():
+            if isinstance(n, ast.IfExp):
+                if isinstance(n.body, (ast.Name, ast.Attribute)) and prog.resolve_in(n.body, put) == CLOUD:
+                    sel.append(n.test)
+                elif isinstance(n.orelse, (ast.Name, ast.Attribute)) and prog.resolve_in(n.orelse, put) == CLOUD:
+                    sel.append(ast.UnaryOp(op=ast.Not(), operand=n.test))
+            if isinstance(n, ast.If) and any(isinstance(x, ast.Call) and isinstance(x.func, ast.Attribute) and x.func.attr in ('append', 'extend') and prog.resolve_in(x.func.value, put) == CLOUD for b in n.body for x in ast.walk(b)):
+                sel.append(n.test)
+        if not drains or not sel:
+            raise AnalysisError('farm: the selection of the cloud list in _put or its drain in dispatch was not found')
+        r.instance()
+        need = {norm(c) for d in drains for c in conjuncts(d)}
+        have = {norm(c) for t in sel for c in conjuncts(t)}
+        r.check(
+            need <= have,
+            f'{put.qname}:cloud-selected-only-when-drained',
+            where(put),
+            f'selection {sorted(have)} implies the drain condition {sorted(need)}',
+            f'{put.qname} puts messages on the cloud list under {sorted(have)} but dispatch drains that list only under {sorted(need)}: with {sorted(need - have)} false the message is never handed out',
+        )
+
+
+def rule6(ctx, rep):
+    """retire, then record (added after seeded change C04-9: complete() wrote the chronicle before it took the target out
+    of doing; an IO fault in the journal - a truncated <run>.json, a full disk - then left the target in doing for ever
+    although no reply will come again)"""
+    prog = ctx.prog
+    f = prog.nfunc('dawgie.pl.schedule.complete')
+    rep.analysed(f)
+    with rep.rule(
+        'R-C04-6',
+        'schedule.complete retires the finished target (doing shrinks, idle node pruned from the queue) before it calls into the journal (chronicle.append does file IO and can raise)',
+        floor=1,
+        breaks='an exception of the journal leaves a finished target in doing: the queue never empties and everything downstream stays blocked',
+    ) as r:
+        pr = _Prune(prog, f, set())
+
+        class Ord(Flow):
+            def __init__(s):
+                super().__init__()
+                s.at = []
+
+            def _s_If(s, node, states):
+                out = Flow._s_If(s, node, states)
+                if pr._prune_var(node) is not None:
+                    out.normal = {'retired' for _ in out.normal} or out.normal
+                return out
+
+            def on_call(s, call, st):
+                if (prog.resolve_in(call.func, f) or '').endswith('chronicle.append'):
+                    s.at.append((call, st))
+                return (st,)
+
+        o = Ord()
+        o.run(f.node, 'pending')
+        if not o.at:
+            raise AnalysisError('schedule.complete no longer calls chronicle.append')
+        r.instance()
+        early = [c for c, st in o.at if st != 'retired']
+        r.check(
+            not early,
+            f'{f.qname}:retire-before-record',
+            where(f, early[0] if early else o.at[0][0]),
+            'the prune point of the finished job dominates the journal write',
+            f'{f.qname} calls chronicle.append before the finished target left doing and the idle node left the queue: if the journal write raises, the target stays in doing for ever',
+        )
+
+
 def check(ctx):
     rep = Report(
         PID,
@@ -498,10 +603,14 @@ def check(ctx):
     rule2(ctx, rep)
     rule3(ctx, rep)
     rule4(ctx, rep)
+    rule5(ctx, rep)
+    rule6(ctx, rep)
     return rep
 
 
 VARIANTS = [
+    V('cloud choice through a flag', 'N', 'pl/farm.py', '_put', '(\n        _cloud\n        if _agency[0] and where == dawgie.Distribution.cloud\n        else _cluster\n    ).append(msg)', 'use_cloud = _agency[0] and where == dawgie.Distribution.cloud\n    (_cloud if use_cloud else _cluster).append(msg)', None),
+    V('cloud list chosen on the holder instead of the provider', 'B', 'pl/farm.py', '_put', 'if _agency[0] and where == dawgie.Distribution.cloud', 'if _agency and where == dawgie.Distribution.cloud', 'R-C04-5'),
     V('purge does not prune', 'B', 'pl/schedule.py', 'purge', "if node in que and not (node.get('todo', []) or node.get('doing', [])):\n        que.remove(node)", 'pass', 'R-C04-1'),
     V('complete never removes from que', 'B', 'pl/schedule.py', 'complete', 'que.remove(job)', 'pass', 'R-C04-1'),
     V('complete prunes on todo only', 'B', 'pl/schedule.py', 'complete', "if not (job.get('todo') or job.get('doing')):", "if not job.get('todo') and False:", 'R-C04-1'),
